@@ -80,7 +80,18 @@ type ntlmContext struct {
 	h *NTLMAuth
 }
 
-func (c *ntlmContext) Authenticate(authorisationEncoded string, r *auth.NtlmResponse) (error) {
+func (c *ntlmContext) Authenticate(authorisationEncoded string, r *auth.NtlmResponse) (err error) {
+	// go-ntlm panics on some malformed messages (e.g. a negotiate message shorter
+	// than 32 bytes or payload offsets that wrap around); a message sent by a
+	// client must not take the authentication service down
+	defer func() {
+		if p := recover(); p != nil {
+			r.Authenticated = false
+			r.Username = ""
+			err = errors.New(fmt.Sprintf("Malformed NTLM message: %v", p))
+		}
+	}()
+
         authorisation, err := base64.StdEncoding.DecodeString(authorisationEncoded)
         if err != nil {
 		return errors.New(fmt.Sprintf("Failed to decode NTLM Authorisation header: %s", err))
